@@ -713,4 +713,176 @@ Proof.
   destruct H as [_ [H|[H _]]]; discriminate H.
 Qed.
 
+(* ------------------------------------------------------------------------------------------ *)
+(* Part 3: states in which the parser does not move: an error header, the end of the stream     *)
+(* ------------------------------------------------------------------------------------------ *)
+
+Lemma optN_eqb_eq a b : optN_eqb a b = true -> a = b.
+Proof. destruct a, b; cbn [optN_eqb]; intros H; try discriminate H; [apply N.eqb_eq in H; congruence|reflexivity]. Qed.
+
+Lemma feed_nil a : feed a [] = a.
+Proof.
+  unfold feed. rewrite app_nil_r. change (len (@nil N)) with 0. rewrite N.sub_0_r. destruct a; reflexivity.
+Qed.
+
+Lemma err_at_feed a new e : err_at a e -> err_at (feed a new) e.
+Proof.
+  intros (Hp & Hq & H8 & Hh). unfold err_at, ri in *. cbn [feed a_prem a_pad a_raw a_req].
+  rewrite len_app. rewrite (take_app_le HEADER_LEN _ new H8). repeat split; try assumption. lia.
+Qed.
+
+(* a call made while the parser stands at an error header reports the same error and moves nothing *)
+Lemma aparse_err a new dest e : legal a new dest -> err_at a e ->
+  aparse maxc a new dest = AFail (feed a new) e (res0 a).
+Proof.
+  intros Hleg He. rewrite (aparse_eq maxc a new dest Hleg).
+  replace (2 * N.to_nat (a_B a) + 8)%nat with (S (2 * N.to_nat (a_B a) + 7)) by lia.
+  rewrite (aparse_loop_err maxc _ (l0 a new dest) e); [reflexivity|]. cbn [l0 al]. apply err_at_feed. exact He.
+Qed.
+
+Lemma at_term_inv a : at_term a = true -> a_prem a = 0 /\ a_pad a = 0 /\ HEADER_LEN <= len (a_raw a).
+Proof.
+  unfold at_term, at_terminator. intros H.
+  apply andb_prop in H. destruct H as [H _]. apply andb_prop in H. destruct H as [H H3].
+  apply andb_prop in H. destruct H as [H1 H2]. apply N.eqb_eq in H1, H2. apply N.leb_le in H3. tauto.
+Qed.
+
+Lemma aparse_head_term l : at_term (al l) = true ->
+  aparse_head l = ABreak (mkAL (al l) (set_end (ares l)) (acap l)).
+Proof.
+  intros H. destruct (at_term_inv _ H) as (H1 & H2 & H3).
+  unfold at_term, at_terminator, rl, ri in H. apply andb_prop in H. destruct H as [_ H4].
+  rewrite aparse_head_eq. cbv zeta. unfold a_boundary. rewrite H1, H2. change (negb ((0 =? 0) && (0 =? 0))) with false. cbv iota.
+  destruct (N.ltb_spec (len (a_raw (al l))) HEADER_LEN) as [Hl|_]; [lia|].
+  destruct (hdr_decode (take HEADER_LEN (a_raw (al l)))) as [t hid cl pl|v|t]; try discriminate H4.
+  apply andb_prop in H4. destruct H4 as [H4 H5]. rewrite H4.
+  destruct (cmp_input_streams (r_role (a_req (al l))) t (a_stream (al l))) as [[| |]|]; try discriminate H5.
+  - rewrite H5. reflexivity.
+  - reflexivity.
+Qed.
+
+Lemma aparse_loop_term f l : at_term (al l) = true ->
+  aparse_loop maxc (S f) l = ABreak (mkAL (al l) (set_end (ares l)) (acap l)).
+Proof.
+  intros H. destruct (at_term_inv _ H) as (H1 & H2 & H3). cbn [aparse_loop].
+  destruct (a_raw (al l)) as [|b r] eqn:Eraw.
+  { change (len (@nil N)) with 0 in H3. unfold HEADER_LEN in H3. lia. }
+  rewrite aparse_iter_eq. rewrite H1, ltb_0_0.
+  unfold after_payload. cbv zeta. rewrite H2, ltb_0_0.
+  rewrite (aparse_head_term l H). reflexivity.
+Qed.
+
+(* a call made while the parser stands at the end of the active stream reports the end again, delivers
+   nothing, produces no output and moves nothing *)
+Lemma aparse_term a dest : legal a [] dest -> at_term a = true ->
+  aparse maxc a [] dest = AOk a (set_end (res0 a)).
+Proof.
+  intros Hleg Ht. rewrite (aparse_eq maxc a [] dest Hleg).
+  replace (2 * N.to_nat (a_B a) + 8)%nat with (S (2 * N.to_nat (a_B a) + 7)) by lia.
+  rewrite (aparse_loop_term _ (l0 a [] dest)); cbn [l0 al ares]; rewrite feed_nil; [reflexivity|exact Ht].
+Qed.
+
+(* the same for the index-level parser *)
+Lemma sparse_at_err p dest e : pinv p -> (dest <> None -> stream_buffer p = []) -> err_at (abs p) e ->
+  exists p' s, sparse maxc p [] dest = StErr p' e s /\ pinv p' /\ abs p' = abs p /\ stream p' = stream p.
+Proof.
+  intros [HRI Hinv] Hd He.
+  assert (Hleg : legal (abs p) [] dest).
+  { split; [constructor|]. split; [rewrite len_nil; apply N.le_0_l|exact Hd]. }
+  destruct (sparse_refines maxc p [] dest HRI) as [Ga Gb].
+  rewrite (aparse_err _ _ _ _ Hleg He), feed_nil in Ga.
+  destruct (sparse maxc p [] dest) as [p' s|p' e' s|n]; cbn [absres sparse_post] in Ga, Gb; try discriminate Ga.
+  assert (Ea : abs p' = abs p) by congruence. assert (Ee : e' = e) by congruence. subst e'. destruct Gb as [R' S'].
+  exists p', s. split; [reflexivity|]. split; [split; [exact R'|rewrite Ea; exact Hinv]|]. split; [exact Ea|exact S'].
+Qed.
+
+Lemma sparse_at_term p dest : pinv p -> (dest <> None -> stream_buffer p = []) -> at_term (abs p) = true ->
+  exists p' s, sparse maxc p [] dest = StOk p' s /\ pinv p' /\ abs p' = abs p /\ stream p' = stream p /\
+               s_end s = true /\ s_stream s = 0 /\ s_dest s = [] /\ s_output s = 0.
+Proof.
+  intros [HRI Hinv] Hd Ht.
+  assert (Hleg : legal (abs p) [] dest).
+  { split; [constructor|]. split; [rewrite len_nil; apply N.le_0_l|exact Hd]. }
+  destruct (sparse_refines maxc p [] dest HRI) as [Ga Gb].
+  rewrite (aparse_term _ _ Hleg Ht) in Ga.
+  destruct (sparse maxc p [] dest) as [p' s|p' e' s|n]; cbn [absres sparse_post] in Ga, Gb; try discriminate Ga.
+  assert (Ea : abs p' = abs p) by congruence. assert (Es : s = set_end (res0 (abs p))) by congruence. destruct Gb as [R' S'].
+  exists p', s. split; [reflexivity|]. split; [split; [exact R'|rewrite Ea; exact Hinv]|]. split; [exact Ea|].
+  split; [exact S'|]. rewrite Es. repeat split.
+Qed.
+
+(* item 4 (C11): an error of the parser is reported again by every later poll_input, without reading from the
+   transport; the only other outcomes are those of flushing the pending output first, and a read that is
+   answered from the stream buffer *)
+Theorem poll_input_sticky fuel dest r w p r' w' e :
+  pinv (rsp r) -> err_at (abs (rsp r)) e -> (length (wscript w) + 1 < fuel)%nat ->
+  poll_input maxc fuel dest r w = (p, r', w') ->
+  remaining w' = remaining w /\ rscript w' = rscript w /\ pinv (rsp r') /\ err_at (abs (rsp r')) e /\
+  (poll_parses dest r = true ->
+     match p with
+     | PReady (inr k) => k = perr_kind e \/ ((k = EK_WriteZero \/ k = EK_Transport) /\ output_buffer (rsp r) <> [])
+     | PWake => output_buffer (rsp r) <> []
+     | _ => False
+     end) /\
+  (poll_parses dest r = true -> output_buffer (rsp r) = [] -> p = PReady (inr (perr_kind e)) /\ w' = w).
+Proof.
+  intros Hinv He Hf E.
+  assert (EMPTY : stream_buffer (rsp r) = [] ->
+    (match poll_output fuel r w with
+     | (PReady (inl _), r1, w1) => input_loop maxc fuel dest [] r1 w1
+     | (PReady (inr k), r1, w1) => (PReady (inr k), r1, w1)
+     | (PWake, r1, w1) => (PWake, r1, w1)
+     | (PBlock, r1, w1) => (PBlock, r1, w1)
+     end) = (p, r', w') ->
+    remaining w' = remaining w /\ rscript w' = rscript w /\ pinv (rsp r') /\ err_at (abs (rsp r')) e /\
+    match p with
+    | PReady (inr k) => k = perr_kind e \/ ((k = EK_WriteZero \/ k = EK_Transport) /\ output_buffer (rsp r) <> [])
+    | PWake => output_buffer (rsp r) <> []
+    | _ => False
+    end /\
+    (output_buffer (rsp r) = [] -> p = PReady (inr (perr_kind e)) /\ w' = w)).
+  { intros Esb E1.
+    destruct (poll_output fuel r w) as [[po r1] w1] eqn:EPO.
+    destruct (poll_output_acct _ _ _ _ _ _ EPO Hinv Hf) as (A1 & Q1 & Q2 & Q3 & Q4 & Q5 & _ & Q6 & Q7).
+    destruct (poll_output_abs _ _ _ _ _ _ EPO Hinv Hf) as (_ & _ & (_ & _ & _ & _ & _ & _) & _).
+    assert (Hrs : rscript w1 = rscript w).
+    { destruct (poll_output_abs _ _ _ _ _ _ EPO Hinv Hf) as (fl & _ & (S1 & _) & _). exact S1. }
+    assert (NE : po <> PReady (inl tt) -> output_buffer (rsp r) <> []).
+    { intros Hpo Ho. apply Hpo. apply (Q6 Ho). }
+    destruct po as [[u|k]| |].
+    - destruct fuel as [|f]; [lia|]. cbn [input_loop] in E1.
+      destruct (sparse_at_err (rsp r1) dest e (ac_inv _ _ _ _ _ _ A1) ltac:(intros _; rewrite Q2; exact Esb) (Q5 e He))
+        as (p2 & s & ES & I2 & A2 & S2).
+      rewrite ES in E1. injection E1 as <- <- <-. cbn [rsp].
+      split; [exact Q1|]. split; [exact Hrs|]. split; [exact I2|]. split; [rewrite A2; apply Q5; exact He|].
+      split; [left; reflexivity|]. intros Ho. destruct (Q6 Ho) as (_ & -> & _). split; reflexivity.
+    - injection E1 as <- <- <-.
+      split; [exact Q1|]. split; [exact Hrs|]. split; [apply A1|]. split; [apply Q5; exact He|].
+      split; [right; split; [exact Q7|apply NE; discriminate]|].
+      intros Ho. destruct (Q6 Ho) as (Hx & _). discriminate Hx.
+    - injection E1 as <- <- <-.
+      split; [exact Q1|]. split; [exact Hrs|]. split; [apply A1|]. split; [apply Q5; exact He|].
+      split; [apply NE; discriminate|]. intros Ho. destruct (Q6 Ho) as (Hx & _). discriminate Hx.
+    - contradiction. }
+  destruct dest as [[|pc]|].
+  - rewrite poll_input_zero in E. injection E as <- <- <-.
+    split; [reflexivity|]. split; [reflexivity|]. split; [exact Hinv|]. split; [exact He|].
+    unfold poll_parses. split; discriminate.
+  - unfold poll_input in E. cbv zeta in E. destruct (stream_buffer (rsp r)) as [|x sb] eqn:Esb.
+    + destruct (EMPTY eq_refl E) as (B1 & B2 & B3 & B4 & B5 & B6).
+      split; [exact B1|]. split; [exact B2|]. split; [exact B3|]. split; [exact B4|]. split; intros _; assumption.
+    + cbv beta iota in E. injection E as <- <- <-. cbn [rsp].
+      destruct Hinv as [HRI HI].
+      pose proof (consume_stream_abs (rsp r) (N.min (N.pos pc) (len (x :: sb))) HRI) as CA.
+      split; [reflexivity|]. split; [reflexivity|].
+      split; [split; [apply consume_stream_RI; exact HRI|rewrite CA; apply consume_stream_inv; exact HI]|].
+      split; [rewrite CA; exact He|]. unfold poll_parses. rewrite Esb. split; discriminate.
+  - unfold poll_input in E. cbv zeta in E. destruct (stream_buffer (rsp r)) as [|x sb] eqn:Esb.
+    + destruct (EMPTY eq_refl E) as (B1 & B2 & B3 & B4 & B5 & B6).
+      split; [exact B1|]. split; [exact B2|]. split; [exact B3|]. split; [exact B4|]. split; intros _; assumption.
+    + cbv beta iota in E. injection E as <- <- <-.
+      split; [reflexivity|]. split; [reflexivity|]. split; [exact Hinv|]. split; [exact He|].
+      unfold poll_parses. rewrite Esb. split; discriminate.
+Qed.
+
 End Reads.
